@@ -800,7 +800,9 @@ _NS = st.one_of(st.integers(2, 10), st.integers(4, 10))
 _T0S = st.one_of(st.integers(86400, 4102444800 - 11 * 86400).map(lambda s: s * 1000),
                  st.sampled_from([gen.ms_of_fields(2019, 12, 31, 23, 59, 50), gen.ms_of_fields(2024, 2, 28, 23, 59, 30),
                                   gen.ms_of_fields(2000, 1, 1), gen.ms_of_fields(1971, 1, 1) - 20000,
-                                  gen.ms_of_fields(2021, 6, 30, 23, 58, 0)]))
+                                  gen.ms_of_fields(2021, 6, 30, 23, 58, 0),
+                                  # undated data: default ObsTime() + incrementTime starts exactly at the epoch (t = 0.0 s)
+                                  0, 0, 125, 1000]))
 
 
 ZONES = [0, 0, 0, 0, 1, 2, -5, 12, -11, -1]
